@@ -73,7 +73,7 @@ def run(ctx, factor):
                 other = g.pick(["%rax", "%rbx", "$0x10", "%ecx"])
                 ops = [cand, other] if pos == 0 else [other, cand]
             insts = [("401000", "nop", []), ("401001", m, ops), ("401008", "ret", [])]
-            o = patdiff.observe(ctx, doc, insts, modes=("bool", "all"))
+            o = patdiff.observe(ctx, doc, insts, modes=("bool", "all"), spec_on="listing")
             usable = patdiff.correspondence(ctx, o)
             tags = ["shape=%d" % shape]
             if usable:
